@@ -809,7 +809,7 @@ pub fn suite_script(ctx: &mut Ctx) {
 /* ------------------------------------------------------------------------------------------ */
 
 /// oracle constant for C19: comparisons <= COST_C * (N+M+1) * (D+1)
-pub const COST_C: u64 = 8;
+pub const COST_C: u64 = 3;
 
 /// C19: comparison counts on the property's families
 pub fn suite_cost(ctx: &mut Ctx) {
